@@ -24,6 +24,7 @@ func checkC08(c *Ctx) {
 	c.Rule("C08.async", "PARALLEL-PHASE: in Vector.AsyncReadFrom the worker increments the atomic error counter when smallerThanModulus fails, and the result channel is closed without an error only if the counter is zero (a send of the error precedes close on every other path)", 23)
 	c.Rule("C08.pool", "POOL: a *big.Int obtained from the scratch pool is first used as the destination of a defining operation (never read first), is not used after Put, and is neither returned nor stored", 100)
 	c.Rule("C08.err", "ERRORS: the vector codec inspects every error of its callees and tests an error assigned in a loop before overwriting it", 23*3)
+	c.Rule("C08.width", "L-WIDTH: a product of a length decoded from the input (binary.*.Uint32 ...) that is used as a slice length / bound / index is computed in int, not in the 32-bit type of the header: in uint32 the product wraps around for large headers and the payload window no longer matches the announced length (found: Vector.AsyncReadFrom, 23 packages)", 23)
 
 	setter := regexp.MustCompile(`^(Set[A-Z]\w*|Set|Unmarshal\w*|MustSetRandom)$`)
 	for _, pk := range pkgs {
@@ -92,6 +93,21 @@ func checkC08(c *Ctx) {
 	sites, ehits := droppedErrors(p, codec)
 	c.Instance("C08.err", sites)
 	reportFindings(c, p, "C08.err", codec, ehits, "errors-inspected")
+	{
+		sites := 0
+		var hits []Finding
+		for _, fn := range libFuncs(p) {
+			if !regexp.MustCompile(`^(ecc/[a-z0-9-]+/f[pr]|field/(koalabear|babybear|goldilocks))$`).MatchString(relPkg(fnPkgPath(fn))) {
+				continue
+			}
+			n, h := narrowLengthArithmetic(p, fn)
+			sites += n
+			hits = append(hits, h...)
+		}
+		c.Instance("C08.width", sites)
+		reportFindings(c, p, "C08.width", nil, hits, "")
+		c.Ob("C08.width", "-", "-", "decoded-length-products-analysed", "-", sites >= 23, "fewer products of decoded lengths found than the 23 vector readers have")
+	}
 	for t := range eff.Trusted {
 		c.Trust(t)
 	}
